@@ -5,7 +5,7 @@ import ast
 
 from .. import AnalysisError
 from ..model import ClassInfo
-from ..rules import handler_summaries, where
+from ..rules import effective_member, handler_summaries, where
 from ..summary import NODE, contains, content, summarize
 from .c05 import check_cse_mixin
 
@@ -437,7 +437,7 @@ def _cse_mapper(ctx, model):
     ctx.ob("P/CSEMapper.get_cse/paths", saw == {"hit", "miss"}, where(gc),
            f"paths {sorted(saw)}")
     # no wrapper around wrapper in its own CSE handler
-    mcs = model.lookup(cm, "map_common_subexpression")
+    mcs = effective_member(model, cm, "map_common_subexpression")
     bad = _rebuild_ok(model, cm, mcs, ctx, "CSEMapper")
     ctx.ob("O/CSEMapper/map_common_subexpression/no-double-wrap", not bad,
            where(mcs),
@@ -510,9 +510,19 @@ def _tagger(ctx, model):
         rv = ps.retval
         if _is_cse_ctor(rv):
             saw.add("wrap")
-            ok = rv[2] == (NODE,)
+            # ... the node itself, or its identity-mapped copy (children
+            # tagged first): a node of the same class either way, never a
+            # wrapper
+            a0 = rv[2][0] if len(rv[2]) == 1 else None
+            ident = isinstance(a0, tuple) and a0[0] == "call" and len(a0) > 4 \
+                and a0[2] == (("selfobj",), NODE) and a0[4][:2] == (
+                    "call", "getattr") and a0[4][2] == (
+                    ("global", "IdentityMapper"), ("attr", NODE, "mapper_method"))
+            ok = a0 == NODE or ident
             ctx.ob("O/CSETagMapper/wraps-own-node", ok, where(mc),
-                   "a repeated node is wrapped as a whole")
+                   "a repeated node is wrapped as a whole" if ok else
+                   "CSETagMapper wraps something other than the repeated node "
+                   "(or its identity-mapped copy)")
         else:
             saw.add("rebuild")
     ctx.ob("O/CSETagMapper/paths", saw == {"wrap", "rebuild"}, where(mc),
@@ -527,7 +537,7 @@ def _tagger(ctx, model):
            "map_common_subexpression: an existing wrapper is wrapped again")
     # ... and the handler that *is* reached by wrappers must not rebuild around
     # a freshly wrapped child
-    mcs = model.lookup(tm, "map_common_subexpression")
+    mcs = effective_member(model, tm, "map_common_subexpression")
     bad = _rebuild_ok(model, tm, mcs, ctx, "CSETagMapper") if \
         _creates_wrappers(tm) else []
     ctx.ob("O/CSETagMapper/map_common_subexpression/no-double-wrap", not bad,
@@ -629,7 +639,7 @@ def _mixin_mro(ctx, model):
     n = 0
     for key in MIXIN_USERS:
         c = model.cls(key)
-        mem = model.lookup(c, "map_common_subexpression")
+        mem = effective_member(model, c, "map_common_subexpression")
         ok = mem is not None and mem.owner.name == "CSECachingMapperMixin"
         n += 1
         ctx.ob(f"S/cse-mixin-mro/{c.name}", ok, c.loc(),
@@ -648,7 +658,7 @@ def _mixin_mro(ctx, model):
     others = [c for c in model.subclasses(mx) if c is not mx
               and c.key not in MIXIN_USERS]
     for c in others:
-        mem = model.lookup(c, "map_common_subexpression")
+        mem = effective_member(model, c, "map_common_subexpression")
         ok = mem is not None and mem.owner.name == "CSECachingMapperMixin"
         ctx.ob(f"S/cse-mixin-mro/{c.name}", ok, c.loc(),
                "mix-in wins the MRO" if ok else
